@@ -59,7 +59,7 @@ class Histories(Stream):
             'changed the model; distinct by (flavour, op kinds, outcomes)')
 
     def sizes(self, tier):
-        return (80, 30) if tier == 'quick' else (2400, 40)
+        return (80, 30) if tier == 'quick' else (800, 40)
 
     def gen(self, rng, tier):
         n, maxops = self.sizes(tier)
@@ -280,7 +280,7 @@ class Clean(Histories):
             'after every call of the whole history')
 
     def sizes(self, tier):
-        return (40, 40) if tier == 'quick' else (1200, 40)
+        return (40, 40) if tier == 'quick' else (350, 40)
 
 
 class C07(Check):
@@ -355,6 +355,9 @@ WITNESSES = {
         [2, 'add_component', 'a', 'c1', 'c', 'SharedNIC', 'ConnectX-6', 's', ['i']],
         [3, 'add_ns', 's1', 'b', 'L2Bridge', ['i']],
         [4, 'remove_link', 'n1-c1-p1-link']]},
+    'C07_view_services_refuted': {'flavour': 'sub', 'ops': [
+        [1, 'add_node', 'n1', 'a', 'S1', 'VM'], [2, 'add_node', 'n2', 'b', 'S1', 'VM'],
+        [3, 'node_add_ns', 'a', 'sv', 's1', 'OVS'], [4, 'node_add_ns', 'b', 'sv', 's2', 'OVS']]},
 }
 
 
